@@ -735,6 +735,14 @@ func c14Exception(c *Ctx, s mapRangeSite, problems []string) (string, bool) {
 // these fields is (a) an argument of Digraph, (b) a key-only range, (c) inside a Show* diagnostic, (d) a range over one
 // slice whose body is a keyed insertion by the element, or (e) a copy/append into one of these fields.
 func c14LookaheadPremise(c *Ctx) (string, bool) {
+	// (0) Digraph must compute sets that do not depend on the order of X and R: the algorithm's skeleton (C03.d)
+	sub := &Report{Prop: "C14", Extra: map[string]interface{}{}}
+	c03d(c, sub)
+	for _, o := range sub.Obls {
+		if o.Verdict != "ok" {
+			return "Digraph/Traverse no longer has the algorithm's skeleton (" + o.Construct + ": " + o.Detail + "), so its result can depend on the order in which the map keys are traversed", false
+		}
+	}
 	fields := map[string]bool{"DRSet": true, "ReadSet": true, "FollowSet": true, "LookAheadSet": true}
 	n := 0
 	for _, f := range c.AllFuncs() {
